@@ -209,7 +209,7 @@ theorem visAt_succ (evs : List Ev) (k : Nat) (e : Ev) (he : evs[k]? = some e) :
     · exact h
     · rw [List.getElem?_eq_none h] at he; cases he
   have htake : evs.take (k + 1) = evs.take k ++ [e] := by
-    rw [List.take_succ, he]; rfl
+    rw [List.take_add_one, he]; rfl
   unfold visAt
   rw [htake, visFrom_append]
   simp [List.length_take, Nat.min_eq_left (Nat.le_of_lt hk)]
@@ -223,5 +223,631 @@ def Scope.vis (sc : Scope) : Vis :=
   ⟨sc.done, sc.cur, sc.cell.map (fun ci => (ci.1, ci.2.map (·.1)))⟩
 
 theorem empty_vis : Scope.empty.vis = Vis.empty := rfl
+
+theorem firstIn_of_map {β γ : Type} (f : β → γ) (P : γ → Prop) (l : List β) (y : γ)
+    (h : FirstIn P (l.map f) y) : ∃ x, FirstIn (fun x => P (f x)) l x ∧ f x = y := by
+  obtain ⟨pre, post, hl, hd, hpre⟩ := h
+  obtain ⟨l1, l2, rfl, h1, h2⟩ := List.map_eq_append_iff.mp hl
+  obtain ⟨x, l3, rfl, hx, _⟩ := List.map_eq_cons_iff.mp h2
+  refine ⟨x, ⟨l1, l3, rfl, by show P (f x); rw [hx]; exact hd, ?_⟩, hx⟩
+  intro z hz
+  exact hpre (f z) (by rw [← h1]; exact List.mem_map.mpr ⟨z, hz, rfl⟩)
+
+/-! ### the lookups, characterised -/
+
+theorem targetCells_spec (all : List Ev) (sc : Scope) (p : Nat) (cs : List Nat) (hcur : sc.cur = some (p, cs))
+    (lo : Option String) (cells : List Nat) :
+    targetCells all sc (p, cs) lo = .ok cells ↔ LibCells all sc.vis lo cells := by
+  have hv : sc.vis.cur = some (p, cs) := hcur
+  cases lo with
+  | none =>
+    simp only [targetCells, LibCells, Except.ok.injEq]
+    constructor
+    · intro h; exact ⟨p, cs, hv, h.symm⟩
+    · rintro ⟨p', cs', h1, h2⟩
+      rw [hv] at h1; cases h1; exact h2.symm
+  | some ln =>
+    simp only [targetCells, LibCells]
+    by_cases hn : isLibNamed all ln p = true
+    · rw [if_pos hn]
+      have hN := (isLibNamed_iff all ln p).mp hn
+      constructor
+      · intro h
+        simp only [Except.ok.injEq] at h
+        exact ⟨p, cs, hv, Or.inl ⟨hN, h.symm⟩⟩
+      · rintro ⟨p', cs', h1, h2⟩
+        rw [hv] at h1; cases h1
+        rcases h2 with ⟨_, h3⟩ | ⟨h3, _⟩
+        · rw [h3]
+        · exact absurd hN h3
+    · rw [if_neg hn]
+      have hN : ¬ LibNamed all ln p := fun h => hn ((isLibNamed_iff all ln p).mpr h)
+      have key := find_firstIn (fun L : Nat × List Nat => isLibNamed all ln L.1)
+        (fun L : Nat × List Nat => LibNamed all ln L.1) (fun L => isLibNamed_iff all ln L.1) sc.done
+      cases hf : sc.done.find? (fun L : Nat × List Nat => isLibNamed all ln L.1) with
+      | none =>
+        simp only
+        constructor
+        · intro h; cases h
+        · rintro ⟨p', cs', h1, h2⟩
+          rcases h2 with ⟨h3, _⟩ | ⟨_, q, h4⟩
+          · rw [hv] at h1; cases h1; exact absurd h3 hN
+          · have := (key (q, cells)).mpr h4
+            rw [hf] at this; cases this
+      | some L =>
+        simp only [Except.ok.injEq]
+        constructor
+        · intro h
+          refine ⟨p, cs, hv, Or.inr ⟨hN, L.1, ?_⟩⟩
+          have := (key L).mp hf
+          rw [← h]; exact this
+        · rintro ⟨p', cs', h1, h2⟩
+          rcases h2 with ⟨h3, _⟩ | ⟨_, q, h4⟩
+          · rw [hv] at h1; cases h1; exact absurd h3 hN
+          · have := (key (q, cells)).mpr h4
+            rw [hf] at this
+            cases this; rfl
+
+theorem pickCell_spec (all : List Ev) (cells : List Nat) (cn v : String) (d : Nat) :
+    pickCell all cells cn v = .ok d ↔ FirstIn (CellNamed all cn) cells d ∧ ViewIs all v d := by
+  have key := find_firstIn (isCellNamed all cn) (CellNamed all cn) (isCellNamed_iff all cn) cells
+  unfold pickCell
+  cases hf : cells.find? (isCellNamed all cn) with
+  | none =>
+    simp only
+    constructor
+    · intro h; cases h
+    · rintro ⟨h1, _⟩
+      have := (key d).mpr h1
+      rw [hf] at this; cases this
+  | some d' =>
+    simp only
+    by_cases hv : viewIs all v d' = true
+    · rw [if_pos hv]
+      simp only [Except.ok.injEq]
+      constructor
+      · intro h; subst h
+        exact ⟨(key d').mp hf, (viewIs_iff all v d').mp hv⟩
+      · rintro ⟨h1, _⟩
+        have := (key d).mpr h1
+        rw [hf] at this; cases this; rfl
+    · rw [if_neg hv]
+      constructor
+      · intro h; cases h
+      · rintro ⟨h1, h2⟩
+        have := (key d).mpr h1
+        rw [hf] at this; cases this
+        exact absurd ((viewIs_iff all v d).mpr h2) hv
+
+theorem resolveTarget_spec (all : List Ev) (sc : Scope) (p : Nat) (cs : List Nat) (hcur : sc.cur = some (p, cs))
+    (c : Nat) (v : String) (co lo : Option String) (t : Nat) :
+    resolveTarget all sc (p, cs) c v co lo = .ok t ↔
+      ViewIs all v t ∧
+      match co with
+      | none => t = c
+      | some cn => ∃ cells, LibCells all sc.vis lo cells ∧ FirstIn (CellNamed all cn) cells t := by
+  cases co with
+  | none =>
+    simp only [resolveTarget]
+    by_cases hv : viewIs all v c = true
+    · rw [if_pos hv]
+      simp only [Except.ok.injEq]
+      constructor
+      · intro h; subst h; exact ⟨(viewIs_iff all v c).mp hv, rfl⟩
+      · rintro ⟨_, h⟩; exact h.symm
+    · rw [if_neg hv]
+      constructor
+      · intro h; cases h
+      · rintro ⟨h1, h2⟩; subst h2; exact absurd ((viewIs_iff all v t).mpr h1) hv
+  | some cn =>
+    simp only [resolveTarget]
+    cases ht : targetCells all sc (p, cs) lo with
+    | error e =>
+      simp only
+      constructor
+      · intro h; cases h
+      · rintro ⟨_, cells, h1, _⟩
+        have := (targetCells_spec all sc p cs hcur lo cells).mpr h1
+        rw [ht] at this; cases this
+    | ok cells =>
+      simp only
+      rw [pickCell_spec]
+      constructor
+      · rintro ⟨h1, h2⟩
+        exact ⟨h2, cells, (targetCells_spec all sc p cs hcur lo cells).mp ht, h1⟩
+      · rintro ⟨h2, cells', h1, h3⟩
+        have := (targetCells_spec all sc p cs hcur lo cells').mpr h1
+        rw [ht] at this; cases this
+        exact ⟨h3, h2⟩
+
+theorem ownerOf_spec (all : List Ev) (c : Nat) (insts : List (Nat × Nat)) (io : Option String) (o : Nat) (ia : Option Nat) :
+    ownerOf all c insts io = .ok (o, ia) ↔
+      match io, ia with
+      | none, none => o = c
+      | some iname, some a => FirstIn (fun x : Nat × Nat => InstNamed all iname x.1) insts (a, o)
+      | _, _ => False := by
+  cases io with
+  | none =>
+    simp only [ownerOf, Except.ok.injEq, Prod.mk.injEq]
+    cases ia with
+    | none =>
+      simp only [and_true]
+      constructor <;> (intro h; exact h.symm)
+    | some a => simp
+  | some iname =>
+    simp only [ownerOf]
+    have key := find_firstIn (fun x : Nat × Nat => isInstNamed all iname x.1)
+      (fun x : Nat × Nat => InstNamed all iname x.1) (fun x => isInstNamed_iff all iname x.1) insts
+    cases hf : insts.find? (fun x : Nat × Nat => isInstNamed all iname x.1) with
+    | none =>
+      simp only
+      constructor
+      · intro h; cases h
+      · intro h
+        cases ia with
+        | none => exact h.elim
+        | some a =>
+          have := (key (a, o)).mpr h
+          rw [hf] at this; cases this
+    | some x =>
+      simp only [Except.ok.injEq, Prod.mk.injEq]
+      cases ia with
+      | none => simp
+      | some a =>
+        simp only [Option.some.injEq]
+        constructor
+        · rintro ⟨h1, h2⟩
+          have := (key x).mp hf
+          rw [← h1, ← h2]; exact this
+        · intro h
+          have := (key (a, o)).mpr h
+          rw [hf] at this; cases this
+          exact ⟨rfl, rfl⟩
+
+theorem pickPort_spec (all : List Ev) (o : Nat) (ia : Option Nat) (pn : String) (m : Option Nat) (r : RRef) :
+    pickPort all o ia pn m = .ok r ↔
+      ∃ ps k pd, portsOf all o = some ps ∧ FirstPort ps pn k pd ∧ m.getD 0 < pd.width ∧ r = .pin o k (m.getD 0) ia := by
+  unfold pickPort
+  cases hp : portsOf all o with
+  | none =>
+    simp only
+    constructor
+    · intro h; cases h
+    · rintro ⟨ps, k, pd, h, _⟩; cases h
+  | some ps =>
+    simp only
+    cases hf : findPort ps pn 0 with
+    | none =>
+      simp only
+      constructor
+      · intro h; cases h
+      · rintro ⟨ps', k, pd, h1, h2, _⟩
+        cases h1
+        have := (findPort_none ps pn 0).mp hf pd (List.mem_of_getElem? h2.1)
+        rw [h2.2.1] at this; cases this
+    | some kp =>
+      obtain ⟨k, pd⟩ := kp
+      obtain ⟨idx, hk, hfp⟩ := (findPort_spec ps pn 0 k pd).mp hf
+      have hk' : k = idx := by omega
+      subst hk'
+      simp only
+      by_cases hw : m.getD 0 < pd.width
+      · rw [if_pos hw]
+        simp only [Except.ok.injEq]
+        constructor
+        · intro h; exact ⟨ps, k, pd, rfl, hfp, hw, h.symm⟩
+        · rintro ⟨ps', k', pd', h1, h2, _, h4⟩
+          cases h1
+          obtain ⟨rfl, rfl⟩ := hfp.unique h2
+          exact h4.symm
+      · rw [if_neg hw]
+        constructor
+        · intro h; cases h
+        · rintro ⟨ps', k', pd', h1, h2, h3, _⟩
+          cases h1
+          obtain ⟨rfl, rfl⟩ := hfp.unique h2
+          exact absurd h3 hw
+
+theorem pickTop_spec (all : List Ev) (done : List (Nat × List Nat)) (cn ln : String) (r : RRef) :
+    pickTop all done cn ln = .ok r ↔
+      ∃ q cells d, FirstIn (fun L : Nat × List Nat => LibNamed all ln L.1) done (q, cells) ∧
+        FirstIn (CellNamed all cn) cells d ∧ r = .top d := by
+  have keyL := find_firstIn (fun L : Nat × List Nat => isLibNamed all ln L.1)
+    (fun L : Nat × List Nat => LibNamed all ln L.1) (fun L => isLibNamed_iff all ln L.1) done
+  unfold pickTop
+  cases hL : done.find? (fun L : Nat × List Nat => isLibNamed all ln L.1) with
+  | none =>
+    simp only
+    constructor
+    · intro h; cases h
+    · rintro ⟨q, cells, d, h1, _⟩
+      have := (keyL (q, cells)).mpr h1
+      rw [hL] at this; cases this
+  | some L =>
+    simp only
+    have keyC := find_firstIn (isCellNamed all cn) (CellNamed all cn) (isCellNamed_iff all cn) L.2
+    cases hC : L.2.find? (isCellNamed all cn) with
+    | none =>
+      simp only
+      constructor
+      · intro h; cases h
+      · rintro ⟨q, cells, d, h1, h2, _⟩
+        have := (keyL (q, cells)).mpr h1
+        rw [hL] at this; cases this
+        have := (keyC d).mpr h2
+        rw [hC] at this; cases this
+    | some d' =>
+      simp only [Except.ok.injEq]
+      constructor
+      · intro h
+        exact ⟨L.1, L.2, d', (keyL L).mp hL, (keyC d').mp hC, h.symm⟩
+      · rintro ⟨q, cells, d, h1, h2, h3⟩
+        have := (keyL (q, cells)).mpr h1
+        rw [hL] at this; cases this
+        have := (keyC d).mpr h2
+        rw [hC] at this; cases this
+        exact h3.symm
+
+/-! ### uniqueness of what the rules prescribe -/
+
+theorem LibCells.unique {all : List Ev} {v : Vis} {lo : Option String} {a b : List Nat}
+    (ha : LibCells all v lo a) (hb : LibCells all v lo b) : a = b := by
+  obtain ⟨p, cs, h1, h2⟩ := ha
+  obtain ⟨p', cs', h1', h2'⟩ := hb
+  rw [h1] at h1'; cases h1'
+  cases lo with
+  | none => simp only at h2 h2'; rw [h2, h2']
+  | some ln =>
+    simp only at h2 h2'
+    rcases h2 with ⟨hn, rfl⟩ | ⟨hn, q, hq⟩ <;> rcases h2' with ⟨hn', rfl⟩ | ⟨hn', q', hq'⟩
+    · rfl
+    · exact absurd hn hn'
+    · exact absurd hn' hn
+    · have := hq.unique hq'
+      exact (Prod.mk.inj this).2
+
+theorem CellRefOk.unique {all : List Ev} {k d d' : Nat} (h : CellRefOk all k d) (h' : CellRefOk all k d') : d = d' := by
+  obtain ⟨iid, iv, co, lo, v, he, hv, _, hm⟩ := h
+  obtain ⟨iid', iv', co', lo', v', he', hv', _, hm'⟩ := h'
+  rw [he] at he'; cases he'
+  rw [hv] at hv'; cases hv'
+  cases co with
+  | none =>
+    simp only at hm hm'
+    obtain ⟨is, h1⟩ := hm
+    obtain ⟨is', h1'⟩ := hm'
+    rw [h1] at h1'; cases h1'; rfl
+  | some cn =>
+    simp only at hm hm'
+    obtain ⟨cells, h1, h2⟩ := hm
+    obtain ⟨cells', h1', h2'⟩ := hm'
+    have := h1.unique h1'
+    subst this
+    exact h2.unique h2'
+
+/-! ### one event -/
+
+structure Inv (all : List Ev) (pos : Nat) (sc : Scope) : Prop where
+  vis : visAt all pos = some sc.vis
+  insts : ∀ c is a t, sc.cell = some (c, is) → (a, t) ∈ is → CellRefOk all a t
+
+theorem inv_init (all : List Ev) : Inv all 0 Scope.empty :=
+  ⟨by rw [visAt_zero, empty_vis], by intro c is a t h; cases h⟩
+
+theorem lockstep (all : List Ev) (pos : Nat) (sc : Scope) (e : Ev) (sr : Scope × Option RRef)
+    (h : stepEv all pos sc e = .ok sr) : visStep pos sc.vis e = some sr.1.vis := by
+  obtain ⟨done, cur, cell⟩ := sc
+  cases e with
+  | lib i => cases cur <;> cases cell <;> simp only [stepEv] at h <;> cases h <;> rfl
+  | endLib => cases cur <;> cases cell <;> simp only [stepEv] at h <;> cases h <;> rfl
+  | cell i v ps => cases cur <;> cases cell <;> simp only [stepEv] at h <;> cases h <;> rfl
+  | endCell => cases cur <;> cases cell <;> simp only [stepEv] at h <;> cases h <;> rfl
+  | inst i v co lo =>
+    cases cur <;> cases cell <;> simp only [stepEv] at h <;> try cases h
+    rename_i l ci
+    cases ht : resolveTarget all ⟨done, some l, some ci⟩ l ci.1 v co lo with
+    | error err => rw [ht] at h; cases h
+    | ok t =>
+      rw [ht] at h
+      simp only [Except.ok.injEq] at h
+      subst h
+      simp [visStep, Scope.vis]
+  | portRef pn m io =>
+    cases cur <;> cases cell <;> simp only [stepEv] at h <;> try cases h
+    rename_i l ci
+    cases ho : ownerOf all ci.1 ci.2 io with
+    | error err => rw [ho] at h; cases h
+    | ok oa =>
+      rw [ho] at h
+      simp only at h
+      cases hp : pickPort all oa.1 oa.2 pn m with
+      | error err => rw [hp] at h; cases h
+      | ok r =>
+        rw [hp] at h
+        simp only [Except.ok.injEq] at h
+        subst h
+        rfl
+  | design cn ln =>
+    cases cur <;> cases cell <;> simp only [stepEv] at h <;> try cases h
+    cases hp : pickTop all done cn ln with
+    | error err => rw [hp] at h; cases h
+    | ok r =>
+      rw [hp] at h
+      simp only [Except.ok.injEq] at h
+      subst h
+      rfl
+
+theorem step_sound {all : List Ev} {pos : Nat} {sc : Scope} {e : Ev} {sr : Scope × Option RRef}
+    (hi : Inv all pos sc) (he : all[pos]? = some e) (h : stepEv all pos sc e = .ok sr) :
+    Inv all (pos + 1) sr.1 ∧ (∀ x, sr.2 = some x → RefOk all pos x) ∧ sr.2.isSome = isRef e := by
+  have hvis : visAt all (pos + 1) = some sr.1.vis := by
+    rw [visAt_succ all pos e he, hi.vis]
+    exact lockstep all pos sc e sr h
+  obtain ⟨done, cur, cell⟩ := sc
+  cases e with
+  | lib i =>
+    cases cur <;> cases cell <;> simp only [stepEv] at h <;> cases h
+    exact ⟨⟨hvis, by intro c is a t hc; cases hc⟩, by simp, rfl⟩
+  | endLib =>
+    cases cur <;> cases cell <;> simp only [stepEv] at h <;> cases h
+    exact ⟨⟨hvis, by intro c is a t hc; cases hc⟩, by simp, rfl⟩
+  | cell i v ps =>
+    cases cur <;> cases cell <;> simp only [stepEv] at h <;> cases h
+    refine ⟨⟨hvis, ?_⟩, by simp, rfl⟩
+    intro c is a t hc hm
+    simp only [Option.some.injEq, Prod.mk.injEq] at hc
+    obtain ⟨_, rfl⟩ := hc
+    simp at hm
+  | endCell =>
+    cases cur <;> cases cell <;> simp only [stepEv] at h <;> cases h
+    exact ⟨⟨hvis, by intro c is a t hc; cases hc⟩, by simp, rfl⟩
+  | inst i v co lo =>
+    cases cur <;> cases cell <;> simp only [stepEv] at h <;> try cases h
+    rename_i l ci
+    obtain ⟨p, cs⟩ := l
+    obtain ⟨c, insts⟩ := ci
+    cases ht : resolveTarget all ⟨done, some (p, cs), some (c, insts)⟩ (p, cs) c v co lo with
+    | error err => rw [ht] at h; cases h
+    | ok t =>
+      rw [ht] at h
+      simp only [Except.ok.injEq] at h
+      subst h
+      obtain ⟨hview, hm⟩ := (resolveTarget_spec all ⟨done, some (p, cs), some (c, insts)⟩ p cs rfl c v co lo t).mp ht
+      have hcr : CellRefOk all pos t := by
+        refine ⟨i, v, co, lo, _, he, hi.vis, hview, ?_⟩
+        cases co with
+        | none => simp only at hm ⊢; subst hm; exact ⟨insts.map (·.1), rfl⟩
+        | some cn => exact hm
+      refine ⟨⟨hvis, ?_⟩, ?_, rfl⟩
+      · intro c' is' a t' hc hmem
+        simp only [Option.some.injEq, Prod.mk.injEq] at hc
+        obtain ⟨_, rfl⟩ := hc
+        rcases List.mem_append.mp hmem with hmem | hmem
+        · exact hi.insts c insts a t' rfl hmem
+        · simp only [List.mem_singleton, Prod.mk.injEq] at hmem
+          obtain ⟨rfl, rfl⟩ := hmem
+          exact hcr
+      · intro x hx
+        simp only [Option.some.injEq] at hx
+        subst hx
+        exact hcr
+  | portRef pn m io =>
+    cases cur <;> cases cell <;> simp only [stepEv] at h <;> try cases h
+    rename_i l ci
+    obtain ⟨c, insts⟩ := ci
+    cases ho : ownerOf all c insts io with
+    | error err => rw [ho] at h; cases h
+    | ok oa =>
+      obtain ⟨o, ia⟩ := oa
+      rw [ho] at h
+      simp only at h
+      cases hp : pickPort all o ia pn m with
+      | error err => rw [hp] at h; cases h
+      | ok r =>
+        rw [hp] at h
+        simp only [Except.ok.injEq] at h
+        subst h
+        refine ⟨⟨hvis, hi.insts⟩, ?_, rfl⟩
+        intro x hx
+        simp only [Option.some.injEq] at hx
+        subst hx
+        obtain ⟨ps, k, pd, h1, h2, h3, rfl⟩ := (pickPort_spec all o ia pn m r).mp hp
+        have hown := (ownerOf_spec all c insts io o ia).mp ho
+        refine ⟨pn, m, io, _, c, insts.map (·.1), he, hi.vis, rfl, ?_, ps, pd, h1, h2, rfl, h3⟩
+        cases io <;> cases ia <;> simp only at hown ⊢
+        · exact hown
+        · rename_i iname a
+          exact ⟨firstIn_map (fun x : Nat × Nat => x.1) (InstNamed all iname) insts (a, o) hown,
+            hi.insts c insts a o rfl hown.mem.1⟩
+  | design cn ln =>
+    cases cur <;> cases cell <;> simp only [stepEv] at h <;> try cases h
+    cases hp : pickTop all done cn ln with
+    | error err => rw [hp] at h; cases h
+    | ok r =>
+      rw [hp] at h
+      simp only [Except.ok.injEq] at h
+      subst h
+      refine ⟨⟨hvis, hi.insts⟩, ?_, rfl⟩
+      intro x hx
+      simp only [Option.some.injEq] at hx
+      subst hx
+      obtain ⟨q, cells, d, h1, h2, rfl⟩ := (pickTop_spec all done cn ln r).mp hp
+      exact ⟨cn, ln, _, q, cells, he, hi.vis, h1, h2⟩
+
+/-- conversely: if the event is allowed here and the rules prescribe a resolution, the resolver finds one -/
+theorem step_complete {all : List Ev} {pos : Nat} {sc : Scope} {e : Ev}
+    (hi : Inv all pos sc) (he : all[pos]? = some e) (hn : (visAt all (pos + 1)).isSome = true)
+    (hr : isRef e = true → ∃ x, RefOk all pos x) : ∃ sr, stepEv all pos sc e = .ok sr := by
+  rw [visAt_succ all pos e he, hi.vis] at hn
+  simp only [Option.bind_some] at hn
+  have hvis := hi.vis
+  obtain ⟨done, cur, cell⟩ := sc
+  cases e with
+  | lib i => cases cur <;> cases cell <;> simp [visStep, Scope.vis] at hn <;> exact ⟨_, rfl⟩
+  | endLib => cases cur <;> cases cell <;> simp [visStep, Scope.vis] at hn <;> exact ⟨_, rfl⟩
+  | cell i v ps => cases cur <;> cases cell <;> simp [visStep, Scope.vis] at hn <;> exact ⟨_, rfl⟩
+  | endCell => cases cur <;> cases cell <;> simp [visStep, Scope.vis] at hn <;> exact ⟨_, rfl⟩
+  | inst i v co lo =>
+    cases cur <;> cases cell <;> simp [visStep, Scope.vis] at hn
+    rename_i l ci
+    obtain ⟨p, cs⟩ := l
+    obtain ⟨c, insts⟩ := ci
+    obtain ⟨x, hx⟩ := hr rfl
+    cases x with
+    | pin c' port bit ia => obtain ⟨pid, m, io, v', cc, is, h1, _⟩ := hx; rw [he] at h1; cases h1
+    | top d => obtain ⟨cn, ln, v', q, cells, h1, _⟩ := hx; rw [he] at h1; cases h1
+    | cell d =>
+      obtain ⟨iid, iv, co', lo', v', h1, h2, h3, h4⟩ := hx
+      rw [he] at h1; cases h1
+      rw [hvis] at h2; cases h2
+      have : resolveTarget all ⟨done, some (p, cs), some (c, insts)⟩ (p, cs) c v co lo = .ok d := by
+        apply (resolveTarget_spec all ⟨done, some (p, cs), some (c, insts)⟩ p cs rfl c v co lo d).mpr
+        refine ⟨h3, ?_⟩
+        cases co with
+        | none =>
+          simp only at h4 ⊢
+          obtain ⟨is, h5⟩ := h4
+          simp only [Scope.vis, Option.map_some, Option.some.injEq, Prod.mk.injEq] at h5
+          exact h5.1.symm
+        | some cn => exact h4
+      exact ⟨(⟨done, some (p, cs), some (c, insts ++ [(pos, d)])⟩, some (.cell d)), by simp only [stepEv, this]⟩
+  | portRef pn m io =>
+    cases cur <;> cases cell <;> simp [visStep, Scope.vis] at hn
+    rename_i l ci
+    obtain ⟨c, insts⟩ := ci
+    obtain ⟨x, hx⟩ := hr rfl
+    cases x with
+    | cell d => obtain ⟨iid, iv, co', lo', v', h1, _⟩ := hx; rw [he] at h1; cases h1
+    | top d => obtain ⟨cn, ln, v', q, cells, h1, _⟩ := hx; rw [he] at h1; cases h1
+    | pin c' port bit ia =>
+      obtain ⟨pid, m', io', v', cc, is, h1, h2, h3, h4, ps, pd, h5, h6, h7, h8⟩ := hx
+      rw [he] at h1; cases h1
+      rw [hvis] at h2; cases h2
+      simp only [Scope.vis, Option.map_some, Option.some.injEq, Prod.mk.injEq] at h3
+      obtain ⟨rfl, rfl⟩ := h3
+      -- the owner the resolver finds is the one the rules prescribe
+      have hown : ownerOf all c insts io = .ok (c', ia) := by
+        apply (ownerOf_spec all c insts io c' ia).mpr
+        cases io <;> cases ia <;> simp only at h4 ⊢
+        · exact h4
+        · rename_i iname a
+          obtain ⟨hf, hcr⟩ := h4
+          obtain ⟨y, hy, hya⟩ := firstIn_of_map (fun x : Nat × Nat => x.1) (InstNamed all iname) insts a hf
+          obtain ⟨a', t'⟩ := y
+          simp only at hya
+          subst hya
+          have := (hi.insts c insts a' t' rfl hy.mem.1).unique hcr
+          subst this
+          exact hy
+      have hpick : pickPort all c' ia pn m = .ok (.pin c' port (m.getD 0) ia) :=
+        (pickPort_spec all c' ia pn m _).mpr ⟨ps, port, pd, h5, h6, by rw [← h7]; exact h8, rfl⟩
+      exact ⟨(⟨done, some l, some (c, insts)⟩, some (.pin c' port (m.getD 0) ia)), by simp only [stepEv, hown, hpick]⟩
+  | design cn ln =>
+    cases cur <;> cases cell <;> simp [visStep, Scope.vis] at hn
+    obtain ⟨x, hx⟩ := hr rfl
+    cases x with
+    | cell d => obtain ⟨iid, iv, co', lo', v', h1, _⟩ := hx; rw [he] at h1; cases h1
+    | pin c' port bit ia => obtain ⟨pid, m, io, v', cc, is, h1, _⟩ := hx; rw [he] at h1; cases h1
+    | top d =>
+      obtain ⟨cn', ln', v', q, cells, h1, h2, h3, h4⟩ := hx
+      rw [he] at h1; cases h1
+      rw [hvis] at h2; cases h2
+      have : pickTop all done cn ln = .ok (.top d) :=
+        (pickTop_spec all done cn ln _).mpr ⟨q, cells, d, h3, h4, rfl⟩
+      exact ⟨(⟨done, none, none⟩, some (.top d)), by simp only [stepEv, this]⟩
+
+/-! ### the whole stream -/
+
+theorem go_sound (all : List Ev) (pre rest : List Ev) (hall : all = pre ++ rest) (sc : Scope)
+    (hsc : Inv all pre.length sc) (rs : List (Nat × RRef)) (hgo : go all pre.length sc rest = .ok rs) :
+    (∀ kr ∈ rs, RefOk all kr.1 kr.2) ∧ rs.map (·.1) = refPositions pre.length rest ∧
+    (∀ j, j ≤ rest.length → (visAt all (pre.length + j)).isSome = true) := by
+  induction rest generalizing pre sc rs with
+  | nil =>
+    simp only [go, Except.ok.injEq] at hgo
+    subst hgo
+    refine ⟨by simp, rfl, ?_⟩
+    intro j hj
+    have : j = 0 := by simpa using hj
+    subst this
+    simp [hsc.vis]
+  | cons e rest ih =>
+    have he : all[pre.length]? = some e := by rw [hall]; simp
+    simp only [go] at hgo
+    cases hs : stepEv all pre.length sc e with
+    | error err => simp [hs] at hgo
+    | ok sr =>
+      simp only [hs] at hgo
+      cases hg : go all (pre.length + 1) sr.1 rest with
+      | error err => simp [hg] at hgo
+      | ok rs' =>
+        simp only [hg, Except.ok.injEq] at hgo
+        obtain ⟨h1, h2, h4⟩ := step_sound hsc he hs
+        have hlen : (pre ++ [e]).length = pre.length + 1 := by simp
+        obtain ⟨i1, i3, i5⟩ := ih (pre ++ [e]) (by rw [hall]; simp) sr.1 (by rw [hlen]; exact h1) rs'
+          (by rw [hlen]; exact hg)
+        rw [hlen] at i3 i5
+        obtain ⟨sc', r⟩ := sr
+        simp only at hgo h2 h4
+        refine ⟨?_, ?_, ?_⟩
+        rotate_left 2
+        · intro j hj
+          cases j with
+          | zero => simp [hsc.vis]
+          | succ j =>
+            have := i5 j (by simpa using hj)
+            have e1 : pre.length + 1 + j = pre.length + (j + 1) := by omega
+            rw [e1] at this; exact this
+        · intro kr hkr
+          cases r with
+          | none => simp only at hgo; subst hgo; exact i1 kr hkr
+          | some x =>
+            simp only at hgo; subst hgo
+            rcases List.mem_cons.mp hkr with rfl | hkr
+            · exact h2 x rfl
+            · exact i1 kr hkr
+        · cases r with
+          | none =>
+            simp only at hgo; subst hgo
+            have : isRef e = false := by simpa using h4.symm
+            simp [refPositions, this, i3]
+          | some x =>
+            simp only at hgo; subst hgo
+            have : isRef e = true := by simpa using h4.symm
+            simp [refPositions, this, i3]
+
+theorem go_complete (all : List Ev) (hn : wellNested all)
+    (hr : ∀ k e, all[k]? = some e → isRef e = true → ∃ r, RefOk all k r)
+    (pre rest : List Ev) (hall : all = pre ++ rest) (sc : Scope) (hsc : Inv all pre.length sc) :
+    ∃ rs, go all pre.length sc rest = .ok rs := by
+  induction rest generalizing pre sc with
+  | nil => exact ⟨[], rfl⟩
+  | cons e rest ih =>
+    have he : all[pre.length]? = some e := by rw [hall]; simp
+    have hk : pre.length + 1 ≤ all.length := by rw [hall]; simp
+    obtain ⟨sr, hs⟩ := step_complete hsc he (hn _ hk) (hr _ e he)
+    obtain ⟨h1, _, _⟩ := step_sound hsc he hs
+    have hlen : (pre ++ [e]).length = pre.length + 1 := by simp
+    obtain ⟨rs', hg⟩ := ih (pre ++ [e]) (by rw [hall]; simp) sr.1 (by rw [hlen]; exact h1)
+    rw [hlen] at hg
+    exact ⟨(match sr.2 with | some x => (pre.length, x) :: rs' | none => rs'), by simp only [go, hs, hg]; rfl⟩
+
+theorem mem_refPositions (evs : List Ev) (base k : Nat) (e : Ev) (he : evs[k]? = some e) (hr : isRef e = true) :
+    base + k ∈ refPositions base evs := by
+  induction evs generalizing base k with
+  | nil => simp at he
+  | cons a r ih =>
+    cases k with
+    | zero =>
+      simp at he; subst he
+      simp [refPositions, hr]
+    | succ k =>
+      have := ih (base + 1) k (by simpa using he)
+      have e1 : base + 1 + k = base + (k + 1) := by omega
+      rw [e1] at this
+      simp only [refPositions]
+      split
+      · exact List.mem_cons_of_mem _ this
+      · exact this
 
 end Spydr.IO.Resolve
